@@ -34,7 +34,8 @@ META = {
             "with >= 2 segments or a non-trivial extent whose tests ran; distinct by constructor arguments",
     "ready": True,
 }
-PATHS = ["sendrecv-self", "send-recv", "typed-to-bytes", "bytes-to-typed", "pack", "unpack", "bcast", "gather", "isend-irecv", "scatter"]
+PATHS = ["sendrecv-self", "send-recv", "typed-to-bytes", "bytes-to-typed", "pack", "unpack", "bcast", "gather", "isend-irecv", "scatter",
+         "sendrecv-self-into-other-derived-type"]
 CODES = {1: "wrong-or-missing", 2: "outside-modified", 3: "mpi-error", 4: "wrong-count"}
 
 # Root causes of the open findings (known_findings.d/C30.json). A failure gets one of these keys only when the failing type has the
